@@ -95,3 +95,158 @@ def with_valid_crc_prefix(rng, dlen, first_octets, total):
         return p
     c = crc16(p[:n - 2]); p[n - 2] = c // 256; p[n - 1] = c % 256
     return p
+
+
+# ---------------------------------------------------------------- value coincidences of the running CRC
+# A serialiser that chains a running CRC over the parts of a packet (primary header, secondary header, data,
+# blocks of the data) can mistake an intermediate value for "nothing computed yet" (0x0000) or for the
+# initial value (0xFFFF).  Such packets are 2^-16 events per boundary, so they are SEARCHED for: the CRC is
+# a bijection of any 16-bit window of the message (everything else fixed), hence a free 16-bit field
+# (sequence count with several APIDs, service/subservice, source ID, message counter, destination ID, two
+# octets of timestamp / data) is solved for such that the CRC over a chosen prefix hits a chosen target.
+# Everything here uses the harness's own table derived from the bitwise `crc16` above.
+_TAB = [crc16([b], 0) for b in range(256)]
+_LOW_INV = {t & 0xFF: j for j, t in enumerate(_TAB)}
+assert len(_LOW_INV) == 256
+CRC_TARGETS = (0x0000, 0xFFFF)
+
+
+def fcrc(data, s=0xFFFF):
+    for b in data:
+        s = ((s << 8) & 0xFFFF) ^ _TAB[(s >> 8) ^ b]
+    return s
+
+
+def crc_back(data, s):
+    """the state BEFORE feeding `data` that ends in state s"""
+    for b in reversed(data):
+        j = _LOW_INV[s & 0xFF]
+        s = ((j ^ b) << 8) | (((s ^ _TAB[j]) >> 8) & 0xFF)
+    return s
+
+
+_G_INV = {}
+
+
+def solve_window(prefix, suffix, target, state=0xFFFF):
+    """the 16-bit word w with crc(prefix ++ w ++ suffix) == target (exists and is unique: the update is linear)"""
+    if not _G_INV:
+        for hi in range(256):
+            s1 = _TAB[hi]
+            for lo in range(256):
+                _G_INV[((s1 << 8) & 0xFFFF) ^ _TAB[(s1 >> 8) ^ lo]] = hi * 256 + lo
+        assert len(_G_INV) == 65536
+    before = fcrc(prefix, state)
+    after = crc_back(suffix, target)
+    return _G_INV[after ^ fcrc([0, 0], before)]
+
+
+assert all(fcrc(m) == crc16(m) for m in ([], [0], [0xFF] * 3, list(range(40)), [0x80, 0, 0xFF] * 9))
+assert crc_back([1, 2, 3, 0xFF], fcrc([1, 2, 3, 0xFF], 0x1234)) == 0x1234
+
+
+def _force_prefix(body, p, target, windows, fix_seq_flags=True):
+    """rewrite one 16-bit window of `body` (first admissible of `windows`, all of which end at or before p) such
+    that crc(body[:p]) == target; the sequence-control window (2, 3) is admissible only when the solved word keeps
+    the two flag bits, which the caller retries with another APID.  Returns the new body or None."""
+    for w in windows:
+        if w + 2 > p or w < 0:
+            continue
+        x = solve_window(body[:w], body[w + 2:p], target)
+        if w == 2 and fix_seq_flags and (x >> 14) != (body[2] >> 6):
+            continue
+        out = list(body)
+        out[w] = x >> 8; out[w + 1] = x & 0xFF
+        assert fcrc(out[:p]) == target
+        return out
+    return None
+
+
+def tc_args_of_body(body):
+    return [[body[7], body[8], (body[0] & 7) * 256 + body[1], (body[2] & 0x3F) * 256 + body[3], body[9] * 256 + body[10],
+             body[6] & 15], list(body[11:])]
+
+
+def tm_args_of_body(body, tl):
+    return [[body[7], body[8], (body[0] & 7) * 256 + body[1], (body[2] & 0x3F) * 256 + body[3], body[9] * 256 + body[10],
+             body[6] & 15, body[11] * 256 + body[12], body[0] >> 5], list(body[13:13 + tl]), list(body[13 + tl:])]
+
+
+def boundaries(hdr_end, n_body):
+    """prefix lengths a chained CRC could stop at: every octet boundary from the end of the primary header to the
+    end of the headers, a few positions and block sizes inside the data, the whole packet (= the trailer itself)"""
+    out = list(range(6, hdr_end + 1))
+    for k in (1, 2, 3, 4, 8, 16, 32, 64, 128, 256, 512, 1024):
+        if hdr_end + k < n_body:
+            out.append(hdr_end + k)
+    for b in (16, 32, 64, 128, 256, 512, 1024):          # absolute block sizes too
+        if hdr_end < b < n_body:
+            out.append(b)
+    out.append(n_body)
+    return sorted(set(out))
+
+
+def tc_crc_coincidences(rng, targets=CRC_TARGETS, lens=(0, 1, 2, 3, 7, 40), fixed=()):
+    """[(args, boundary, target)]: telecommands whose CRC over the first `boundary` octets is `target`.
+    `fixed`: windows that must not be rewritten (e.g. (7,) when service / subservice are prescribed)."""
+    out = []
+    for n in lens:
+        for p in boundaries(11, 11 + n):
+            if n >= 200 and p <= 11:
+                continue                 # header boundaries are covered by the short packets
+            for t in targets:
+                for _ in range(200):
+                    a = rand_tc_args(rng, 1)
+                    a[1] = rbytes(rng, n)
+                    body = tc_layout(*a[0], a[1])[:-2]
+                    wins = [w for w in ([p - 2] if p - 2 >= 11 else []) + [9, 7, 2] if w not in fixed]
+                    if rng.random() < 0.5:
+                        wins = [w for w in (2, 9, 7) if w not in fixed] + wins       # the same boundary through another field
+                    b2 = _force_prefix(body, p, t, wins)
+                    if b2 is not None:
+                        out.append((tc_args_of_body(b2), p, t))
+                        break
+    return out
+
+
+def tm_crc_coincidences(rng, targets=CRC_TARGETS, lens=(0, 1, 2, 3, 7, 40), stamps=(0, 1, 7, 16), fixed=(), service=None,
+                        msgcnt=None):
+    """[(args, boundary, target)] for telemetry; `service` / `msgcnt` prescribe values the wrappers fix"""
+    out = []
+    for tl in stamps:
+        for n in lens:
+            for p in boundaries(13 + tl, 13 + tl + n):
+                if n >= 200 and p <= 13 + tl:
+                    continue             # header boundaries are covered by the short packets
+                for t in targets:
+                    for _ in range(200):
+                        a = rand_tm_args(rng, 1, tl)
+                        a[2] = rbytes(rng, n)
+                        if service is not None:
+                            a[0][0] = service
+                        if msgcnt is not None:
+                            a[0][4] = msgcnt
+                        body = tm_layout(*a[0], a[1], a[2])[:-2]
+                        wins = [w for w in ([p - 2] if p - 2 >= 13 else []) + [11, 9, 7, 2] if w not in fixed]
+                        if rng.random() < 0.5:
+                            wins = [w for w in (2, 11, 9, 7) if w not in fixed] + wins
+                        b2 = _force_prefix(body, p, t, wins)
+                        if b2 is not None:
+                            out.append((tm_args_of_body(b2, tl), p, t))
+                            break
+    return out
+
+
+def repair_pus_crc(pkt, n=None):
+    """the packet with the CRC trailer of its first n octets (default: the length it declares) recomputed; padded with
+    zero octets when shorter than n"""
+    p = list(pkt)
+    if n is None:
+        n = p[4] * 256 + p[5] + 7 if len(p) >= 6 else len(p)
+    if n < 2:
+        return p
+    if len(p) < n:
+        p += [0] * (n - len(p))
+    c = fcrc(p[:n - 2])
+    p[n - 2] = c >> 8; p[n - 1] = c & 0xFF
+    return p
